@@ -79,9 +79,27 @@ def make_grid(spec, k):
     return g
 
 
+def well_mdg(nfrac):
+    """Unit cube with horizontal fractures and one vertical well crossing them: the md-grid
+    has codimension-TWO interfaces (fracture / well-point, dim 0) whose ids lie between those
+    of the codimension-one interfaces of the same dimension (well segment / point)."""
+    dom = pp.Domain({"xmin": 0, "xmax": 1, "ymin": 0, "ymax": 1, "zmin": 0, "zmax": 1})
+    fr = [pp.PlaneFracture(np.array([[0, 1, 1, 0], [1, 1, 0, 0], [z, z, z, z]]))
+          for z in (0.5, 0.2, 0.1)[:nfrac]]
+    fn = pp.create_fracture_network(fr, dom)
+    wn = pp.WellNetwork3d(dom, [pp.Well(np.array([[0.5, 0.5], [0.5, 0.5], [1, 0.1]]))],
+                          parameters={"mesh_size": 1})
+    mdg = fn.mesh({"mesh_size_frac": 1, "mesh_size_min": 1})
+    pp.fracs.wells_3d.compute_well_fracture_intersections(wn, fn)
+    wn.mesh(mdg)
+    return mdg
+
+
 def build_mdg(case):
     if case["base"] is None:
         mdg = pp.MixedDimensionalGrid()
+    elif case["base"] == "well":
+        mdg = well_mdg(len(case["fracs"]))
     else:
         mdg, _ = pp.mdg_library.square_with_orthogonal_fractures(
             case["base"], {"cell_size": 0.5}, fracture_indices=case["fracs"])
@@ -176,7 +194,9 @@ class C38(Prop):
     technique = ("Coq proof (stable partition by type is a permutation; scatter after gather is "
                  "the identity) + vm_compute execution correspondence on real Exporter "
                  "internals and real vtu/pvd/json files")
-    rule = ("md-grids: optional fractured unit square (Cartesian or simplex, 0-2 fractures, with "
+    rule = ("2 (thorough: 8) directed md-grids with a well (unit cube, 2-3 fractures, one "
+            "well: codimension-two interfaces of dimension 0 interleaved with codimension-one "
+            "ones), subdomain and interface data; md-grids: optional fractured unit square (Cartesian or simplex, 0-2 fractures, with "
             "interfaces) plus 0-4 hand-added subdomains out of triangle strips, quad strips, "
             "polygon grids mixing quad/triangle/pentagon cells in random cell order, lines, and "
             "3-D hex / tet / tensor grids; 1-4 exports at increasing time-step indices in 0..13 "
@@ -205,6 +225,14 @@ class C38(Prop):
         for k in range(1 if tier == "quick" else 6):
             yield {"kind": "e2e", "dt": rng.choice([0.5, 0.25, 2.0, 1.0]),
                    "nsteps": rng.choice([2, 3, 4]), "mdg_pvd": bool(k % 2)}
+        # directed: md-grids with a well (codimension-two interfaces present), subdomain and
+        # interface states exported and re-imported
+        for k in range(2 if tier == "quick" else 8):
+            steps = sorted(rng.sample(range(0, 12), rng.choice([1, 2])))
+            yield {"kind": "vtu", "base": "well", "fracs": [0, 1] if k % 2 == 0 else [0, 1, 2],
+                   "extra": [] if k < 2 else [["tri", 1], ["quad", 1]][: rng.randint(0, 2)],
+                   "steps": steps, "times": gen_times(rng, steps), "str_key": False,
+                   "vector": bool(k % 2), "seed": rng.randint(0, 10 ** 6)}
         for i in range(n):
             if i % 4 == 3:
                 k = rng.randint(1, 6)
